@@ -15,7 +15,7 @@ That each algorithm returns the minimum over all paths, and that the five routin
 """
 import ast
 
-from ..core.astutil import norm, ParentMap
+from ..core.astutil import norm, ParentMap, same_up_to_reordering
 from ..core.cfg import CFG
 from ..core.loader import walk_no_nested
 from ..core.pattern import Matcher
@@ -69,7 +69,7 @@ def _bfs_kernel(rep, f, m, body, G, tag):
         bb = m.match(s, '$D += $N * %s' % L)
         if bb:
             D, N = norm(bb['D']), norm(bb['N'])
-    okb = D is not None and b == ['%s += %s * %s' % (D, N, L), '%s += 1' % N, 'nPATH = np.dot(nPATH, %s)' % G, '%s = (nPATH != 0) * (%s == 0)' % (L, D)]
+    okb = D is not None and same_up_to_reordering(lp.body, ['%s += %s * %s' % (D, N, L), '%s += 1' % N, 'nPATH = np.dot(nPATH, %s)' % G, '%s = (nPATH != 0) * (%s == 0)' % (L, D)])
     rep.ob('K.bfs-adds-length-to-newly-reached-pairs-only', f, '; '.join(b)[:150], okb,
            'each round must add the current length n to exactly the pairs reached for the first time (walk matrix nonzero and distance still 0), then advance n' + tag, line=lp.lineno)
     init = {norm(s.targets[0]): norm(s.value) for s in body if isinstance(s, ast.Assign) and isinstance(s.targets[0], ast.Name) and s.lineno < lp.lineno}
@@ -145,7 +145,7 @@ def _dijkstra_core(rep, f, m, fn_node, G, tag, with_hops):
     w = wl[0]
     b = w.body
     head = [norm(s) for s in b[:2]]
-    rep.ob('K.dijkstra-settles-frontier', f, '; '.join(head), head == ['S[V] = 0', 'G1[:, V] = 0'],
+    rep.ob('K.dijkstra-settles-frontier', f, '; '.join(head), sorted(head) == sorted(['S[V] = 0', 'G1[:, V] = 0']),
            'the current frontier becomes permanent and its in-connections are removed before relaxing' + tag, line=w.lineno)
     vl = [s for s in b if isinstance(s, ast.For) and norm(s.iter) == 'V']
     relax = None
@@ -323,7 +323,9 @@ def _clones(prog, rep):
         lg = [s for s in g.node.body if isinstance(s, ast.While)]
         a = [x.replace(f.params[0], 'G') for x in _loop_sig(lf[0].body)] if lf else None
         b = [x.replace(g.params[0], 'G') for x in _loop_sig(lg[0].body)] if lg else None
-        rep.ob('C.private-bfs-is-a-clone-of-distance_bin', g, 'loop body: %s' % '; '.join(b or [])[:120], a is not None and a == b,
+        same = a is not None and b is not None and lf and lg and same_up_to_reordering(
+            [ast.parse(x).body[0] for x in b], a)
+        rep.ob('C.private-bfs-is-a-clone-of-distance_bin', g, 'loop body: %s' % '; '.join(b or [])[:120], bool(same),
                'the search loop of efficiency_bin.distance_inv differs from distance_bin: the efficiency would be computed from other "distances"', line=g.node.lineno)
     f = prog.func(DIST, 'distance_wei')
     g = prog.func(EFF, 'efficiency_wei').nested.get('distance_inv_wei')
